@@ -443,8 +443,21 @@ def rule_r_kind(prog, res):
                     fs_ = sorted("%s %s %s" % (_abs(show(t, fa.names), bits), k, _absv(v, bits)) for t, (k, v) in facts.items())
                     paths.append((tuple(fs_), _abs(show(rv, fa.names), bits)))
                 sigs.setdefault(tuple(sorted(paths)), []).append(bits)
-            res.ob("R-kind", "%s::%s | the impls agree up to the carrier width" % (kind, meth), len(sigs) == 1,
-                   "%d distinct normalised decision structures: %s" % (len(sigs), list(sigs.values())), fs[0][1].loc,
+            okk = len(sigs) == 1
+            dk = "%d distinct normalised decision structures: %s" % (len(sigs), list(sigs.values()))
+            if not okk:
+                # the sibling comparison is a cross-check of shapes; where every one of the impls is decided on its own against the kind's
+                # specification (S-sem: all widths, all paths), the impls agree by meaning, whatever their shapes
+                import signsem
+                k_ = id(prog)
+                if k_ not in _SIGNSEM:
+                    _SIGNSEM[k_] = signsem.check(prog)
+                o_ = _SIGNSEM[k_]
+                mine = {f.path for _, f in fs}
+                trouble = [x for x, _ in o_["problems"] + o_["undecided"] if x in mine]
+                if not trouble and len(mine) == 5:
+                    okk, dk = True, "shapes differ (%s); each impl decided against the specification of its kind by S-sem" % dk
+            res.ob("R-kind", "%s::%s | the impls agree up to the carrier width" % (kind, meth), okk, dk, fs[0][1].loc,
                    sample={"widths": sorted(b for b, _ in fs), "paths": len(next(iter(sigs))) if sigs else 0})
 
 
